@@ -90,42 +90,40 @@ def run(ck):
         conv = T.calls(ci, name=("into", "from"))
         ok = ok and all(T.resolves_to_arg(ci, c.args[0], 2) and T.path_has(ci, c.args[0], ".inner") for c in conv)
         ck.verdict(ok, "3", "T9-layout", ci, "event.key=usize::from(token.inner)", "the poller key is the packed token of this registration, and the event starts from Event::none", "cvt_interest does not use the packed token as the poller key / does not start from an empty event", site=ci.where())
-    cm = ck.opt_body("sys::cvt_mode")
+    # the mode translation, found by its role (Mode x bool -> polling::PollMode) rather than by its name, and decided by
+    # evaluating its MIR on all six inputs (engine/bits/finite_eval.py)
+    cm = common.mode_converter(f)
     if cm is None:
         ck.anchor_missing("3", "T9-layout", "sys::cvt_mode")
     else:
+        import os as _os, sys as _sys
+
+        _sys.path.insert(0, _os.path.join(_os.path.dirname(_os.path.abspath(__file__)), "..", "..", "bits"))
+        import finite_eval as FE
+
+        body_cm, mode_arg, bool_arg = cm
         want = {"Edge": "Edge", "Level": "Level", "OneShot": "Oneshot"}
-        md = {v["name"]: v["discr"] for v in f.adts["sys::Mode"]["variants"]}
-        inv = {v: k for k, v in md.items()}
+        modes = f.adts["sys::Mode"]["variants"]
         seen = {}
-        sws = T.switches_on_discr_of(cm, lambda pl: pl["l"] == 1 and not pl["p"])
-        for path in T.enumerate_paths(cm) or []:
-            possible = set(inv)
-            fallback = False
-            ret = None
-            for bb, edge in path:
-                for st in cm.blocks[bb]["st"]:
-                    if st["s"] == "assign" and st["pl"]["l"] == 0 and st["rv"]["r"] == "agg":
-                        ret = st["rv"].get("variant")
-                if edge is not None and bb in sws:
-                    tgt, lab = edge
-                    listed = {v for v, _ in cm.blocks[bb]["term"]["targets"]}
-                    if isinstance(lab, tuple):
-                        possible &= {lab[1]}
-                    else:
-                        possible -= listed
-                elif edge is not None and cm.blocks[bb]["term"]["t"] == "switch":
-                    e, tr, fa = cm.bool_edges(bb)
-                    if e[0] == "place" and e[2]["l"] == 2 and edge[0] in fa:
-                        fallback = True
-            if fallback:
-                seen.setdefault("<no-modes>", set()).add(ret)
-            else:
-                for v in possible:
-                    seen.setdefault(inv[v], set()).add(ret)
+        err = None
+        for mi, mv in enumerate(modes):
+            for sup in (0, 1):
+                args = [None, None]
+                args[mode_arg - 1] = ("enum", "sys::Mode", mi, [])
+                args[bool_arg - 1] = ("int", sup)
+                try:
+                    ev = FE.Eval(f)
+                    got = ev.run(body_cm, args)
+                    name = ev.variant_names.get((got[1], got[2])) if got[0] == "enum" else str(got)
+                except FE.Unsupported as e:
+                    err = str(e)
+                    name = None
+                seen.setdefault(mv["name"] if sup else "<no-modes>", set()).add(name)
+        if err:
+            ck.undecided("3", "T9-layout", body_cm, "mode-table", "the mode translation could not be evaluated (%s)" % err, site=body_cm.where())
         for m, w in want.items():
-            ck.verdict(seen.get(m) == {w}, "3", "T9-layout", cm, "Mode::%s->PollMode::%s" % (m, w), "Mode::%s is translated to PollMode::%s" % (m, w), "Mode::%s is translated to %s (a level-triggered source would be reported once, an edge-triggered one on every poll, ...)" % (m, sorted(seen.get(m, []))), site=cm.where())
-        ck.verdict(seen.get("<no-modes>", {"Oneshot"}) == {"Oneshot"}, "3", "T9-layout", cm, "no-mode-support->Oneshot", "without poller mode support everything is Oneshot (level is emulated)", "the fallback without mode support is not Oneshot", site=cm.where())
+            ck.verdict(seen.get(m) == {w}, "3", "T9-layout", body_cm, "Mode::%s->PollMode::%s" % (m, w), "Mode::%s is translated to PollMode::%s" % (m, w), "Mode::%s is translated to %s (a level-triggered source would be reported once, an edge-triggered one continuously, ...)" % (m, sorted(str(x) for x in seen.get(m, []))), site=body_cm.where())
+        ck.verdict(seen.get("<no-modes>", {"Oneshot"}) == {"Oneshot"}, "3", "T9-layout", body_cm, "no-mode-support->Oneshot", "without poller mode support everything is Oneshot (level is emulated)", "the fallback without mode support is not Oneshot: %s" % sorted(str(x) for x in seen.get("<no-modes>", [])), site=body_cm.where())
 
     # ---- clause 4: bounded batches re-arm themselves ---------------------------------------------------------
     for q, feature in (("<Channel as EventSource>::process_events", None), ("<Executor as EventSource>::process_events", "executor")):
